@@ -18,6 +18,7 @@ PYTHONPATH=/repo/src /venv/bin/python -W ignore "$wt/out/demo.py" >/dev/null 2>&
 fi
 echo "suite with change: $passed"; echo "demo exit with change: $with   without: $without"
 cd /verif
+mkdir -p .work/evidence-changed-tree; export VERIF_EVIDENCE_DIR=/verif/.work/evidence-changed-tree
 if ! git -C /repo apply --check "$out/patch.diff" 2>/dev/null; then echo "PATCH DOES NOT APPLY to /repo"; exit 3; fi
 git -C /repo apply "$out/patch.diff"
 results=""
